@@ -189,9 +189,26 @@ def build_interp(method, locs, mags):
     raise ValueError(method)
 
 
-def call_env(x, emode, method, w, parab, col2d=False, via_utils=False):
+DTYPES = ['int64', 'int32', 'float32']     # storage types of the input signal besides float64
+
+
+def as_dtype(x, dtype):
+    """The values of x that are exactly representable in `dtype` (what the implementation is actually handed)."""
+    if dtype in (None, 'float64'):
+        return [float(v) for v in x]
+    if dtype.startswith('int'):
+        return [float(int(round(v))) for v in x]
+    return [float(np.dtype(dtype).type(v)) for v in x]
+
+
+def call_env(x, emode, method, w, parab, col2d=False, via_utils=False, dtype=None):
     import emd
     X = np.array(x, dtype=float)
+    if dtype not in (None, 'float64'):
+        Xd = X.astype(dtype)
+        if not np.array_equal(Xd.astype(float), X):
+            raise RuntimeError('harness: case values are not representable as %s' % dtype)
+        X = Xd
     n = len(X)
     if col2d:
         X = X[:, None]
